@@ -1,41 +1,58 @@
 //vf:dir lang/pack
+//vf:use packcommon.go
 package pack
 
 // GENERATED: no-op extra hooks for packs without a hand-written one (see extras.go).
 
-func zzExtraParamPack(p Pack) {}
-func zzExtraCounterPack1(p Pack) {}
+func zzOptParamPack() *zzOpts { return nil }
+func zzOptCounterPack1() *zzOpts { return nil }
 func zzExtraProfilePack(p Pack) {}
+func zzOptProfilePack() *zzOpts { return nil }
 func zzExtraActiveStackPack(p Pack) {}
+func zzOptActiveStackPack() *zzOpts { return nil }
 func zzExtraTextPack(p Pack) {}
+func zzOptTextPack() *zzOpts { return nil }
 func zzExtraErrorSnapPack1(p Pack) {}
+func zzOptErrorSnapPack1() *zzOpts { return nil }
 func zzExtraRealtimeUserPack(p Pack) {}
+func zzOptRealtimeUserPack() *zzOpts { return nil }
 func zzExtraStatServicePack(p Pack) {}
-func zzExtraStatGeneralPack(p Pack) {}
+func zzOptStatServicePack() *zzOpts { return nil }
 func zzExtraStatSqlPack(p Pack) {}
+func zzOptStatSqlPack() *zzOpts { return nil }
 func zzExtraStatHttpcPack(p Pack) {}
+func zzOptStatHttpcPack() *zzOpts { return nil }
 func zzExtraStatErrorPack(p Pack) {}
-func zzExtraStatRemoteIpPack(p Pack) {}
-func zzExtraStatUserAgentPack(p Pack) {}
-func zzExtraEventPack(p Pack) {}
-func zzExtraHitMapPack1(p Pack) {}
-func zzExtraExtensionPack(p Pack) {}
-func zzExtraTagCountPack(p Pack) {}
-func zzExtraTagLogPack(p Pack) {}
-func zzExtraCompositePack(p Pack) {}
-func zzExtraLogSinkPack(p Pack) {}
+func zzOptStatErrorPack() *zzOpts { return nil }
+func zzOptStatRemoteIpPack() *zzOpts { return nil }
+func zzOptStatUserAgentPack() *zzOpts { return nil }
+func zzOptHitMapPack1() *zzOpts { return nil }
+func zzOptExtensionPack() *zzOpts { return nil }
+func zzOptTagCountPack() *zzOpts { return nil }
+func zzOptTagLogPack() *zzOpts { return nil }
+func zzOptCompositePack() *zzOpts { return nil }
+func zzOptLogSinkPack() *zzOpts { return nil }
 func zzExtraZipPack(p Pack) {}
+func zzOptZipPack() *zzOpts { return nil }
 func zzExtraLogSinkZipPack(p Pack) {}
-func zzExtraServerInfoPack(p Pack) {}
+func zzOptLogSinkZipPack() *zzOpts { return nil }
+func zzOptServerInfoPack() *zzOpts { return nil }
 func zzExtraProfileStepSplitPack(p Pack) {}
+func zzOptProfileStepSplitPack() *zzOpts { return nil }
 func zzExtraStatTransactionPack(p Pack) {}
+func zzOptStatTransactionPack() *zzOpts { return nil }
 func zzExtraStatTransactionPack1(p Pack) {}
-func zzExtraSMBasePack(p Pack) {}
-func zzExtraSMDiskPerfPack(p Pack) {}
+func zzOptStatTransactionPack1() *zzOpts { return nil }
+func zzOptSMBasePack() *zzOpts { return nil }
+func zzOptSMDiskPerfPack() *zzOpts { return nil }
 func zzExtraSMDownCheckPack(p Pack) {}
-func zzExtraSMExtension(p Pack) {}
+func zzOptSMDownCheckPack() *zzOpts { return nil }
+func zzOptSMExtension() *zzOpts { return nil }
 func zzExtraSMLogEventPack(p Pack) {}
-func zzExtraSMNetPerfPack(p Pack) {}
+func zzOptSMNetPerfPack() *zzOpts { return nil }
 func zzExtraSMPingPack(p Pack) {}
+func zzOptSMPingPack() *zzOpts { return nil }
 func zzExtraSMProcPerfPack(p Pack) {}
+func zzOptSMProcPerfPack() *zzOpts { return nil }
 func zzExtraSMTCPPerfPack(p Pack) {}
+func zzOptSMTCPPerfPack() *zzOpts { return nil }
